@@ -1,5 +1,817 @@
 import Driver.Proto
+import TonicModel.Basic.HMapLite
+import TonicModel.Model.Interceptor
+import TonicModel.Spec.Interceptor
+/-
+C12 driver: parses a case (see harness/src/c12.rs for the grammar), runs the model
+(`Interceptor.runCalls` with the scripted interceptor and a scripted wrapped service), renders
+the canonical tokens, and evaluates `Spec.Interceptor` on what the implementation was observed
+to do.
+-/
 namespace DriverC12
-/-- stub: property not yet claimed -/
-def handle (_case _obs : List String) : String × String := ("unclaimed", "fail:unclaimed")
+open Proto HMapLite HttpLite Interceptor
+
+/-! ### token parser -/
+
+abbrev P := StateT (List String) Option
+
+def next : P String := fun ts => match ts with
+  | [] => none
+  | t :: r => some (t, r)
+
+def pnat : P Nat := do
+  let t ← next
+  match t.toNat? with
+  | some n => pure n
+  | none => failure
+
+def pbytes : P Bytes := do
+  let t ← next
+  match unhex t with
+  | some b => pure b
+  | none => failure
+
+def pflag : P Bool := do
+  let t ← next
+  if t == "0" then pure false else if t == "1" then pure true else failure
+
+def rep {α} (p : P α) : Nat → P (List α)
+  | 0 => pure []
+  | n + 1 => do
+    let x ← p
+    let xs ← rep p n
+    pure (x :: xs)
+
+/-- `count (name value sens)*`, names normalised as `HeaderName::from_bytes` does; entries in
+`append` order -/
+def phdrs : P Hdrs := do
+  let n ← pnat
+  rep (do
+    let name ← pbytes
+    let v ← pbytes
+    let s ← pflag
+    pure (normName name, (v, s))) n
+
+/-- `count (id value)*`, inserted in order -/
+def pext : P Ext := do
+  let n ← pnat
+  let xs ← rep (do
+    let id ← pnat
+    let v ← pbytes
+    pure (id, v)) n
+  pure (xs.foldl (fun acc e => Ext.set e.1 e.2 acc) [])
+
+def pbody : P Body := do
+  let n ← pnat
+  let chunks ← rep pbytes n
+  let t ← next
+  if t == "notr" then pure { chunks := chunks, trailers := none }
+  else if t == "tr" then do
+    let h ← phdrs
+    pure { chunks := chunks, trailers := some h }
+  else failure
+
+def pop : P Op := do
+  let t ← next
+  match t with
+  | "hins" => do let n ← pbytes; let v ← pbytes; let s ← pflag; pure (.hins n (v, s))
+  | "happ" => do let n ← pbytes; let v ← pbytes; let s ← pflag; pure (.happ n (v, s))
+  | "hrem" => do let n ← pbytes; pure (.hrem n)
+  | "mins" => do let n ← pbytes; let v ← pbytes; pure (.mins n v)
+  | "mapp" => do let n ← pbytes; let v ← pbytes; pure (.mapp n v)
+  | "mrem" => do let n ← pbytes; pure (.mrem n)
+  | "bins" => do let n ← pbytes; let v ← pbytes; pure (.bins n v)
+  | "bapp" => do let n ← pbytes; let v ← pbytes; pure (.bapp n v)
+  | "brem" => do let n ← pbytes; pure (.brem n)
+  | "clear" => pure .clear
+  | "cnt" => do let n ← pbytes; pure (.cnt n)
+  | "xset" => do let id ← pnat; let v ← pbytes; pure (.xset id v)
+  | "xrm" => do let id ← pnat; pure (.xrm id)
+  | "xclear" => pure .xclear
+  | _ => failure
+
+def pscript : P Script := do
+  let n ← pnat
+  let ops ← rep pop n
+  let t ← next
+  if t == "ok" then pure { ops := ops, reject := none }
+  else if t == "rej" then do
+    let _ctor ← pnat
+    let code ← pnat
+    let msg ← pbytes
+    let details ← pbytes
+    let _src ← pflag
+    let md ← phdrs
+    pure { ops := ops, reject := some { code := codeFromI32 code, message := msg, details := details, metadata := md } }
+  else failure
+
+/-- the wrapped service's scripted answer -/
+abbrev RespScript := Except Nat (Response Body)
+
+def presp : P RespScript := do
+  let t ← next
+  if t == "e" then do
+    let n ← pnat
+    pure (.error n)
+  else if t == "r" then do
+    let status ← pnat
+    let version ← pnat
+    let h ← phdrs
+    let x ← pext
+    let b ← pbody
+    pure (.ok { status := status, version := version, headers := h, ext := x, body := b })
+  else failure
+
+/-- The body type the model is instantiated with: the request body proper plus the scripted
+answer travelling with it (the model cannot look inside `β`). -/
+abbrev B := Body × RespScript
+
+/-- optional readiness marker before a call: `!p` pending, `!e<n>` error n -/
+def pready : P (Poll Nat) := do
+  let ts ← get
+  match ts with
+  | t :: _ =>
+    if t == "!p" then do let _ ← next; pure .pending
+    else if t.startsWith "!e" then do
+      let _ ← next
+      match (t.drop 2).toNat? with
+      | some n => pure (.err n)
+      | none => failure
+    else pure .ready
+  | [] => pure .ready
+
+def pcall : P (Request B) := do
+  let method ← pbytes
+  let version ← pnat
+  let uri ← pbytes
+  let h ← phdrs
+  let x ← pext
+  let b ← pbody
+  let r ← presp
+  pure { method := method, version := version, uri := uri, headers := h, ext := x, body := (b, r) }
+
+structure Case where
+  scripts : List Script
+  calls : List (Request B)
+  /-- the wrapped service's readiness before each call -/
+  readiness : List (Poll Nat)
+
+def pcase : P Case := do
+  let _kind ← next
+  let _via ← next
+  let ns ← pnat
+  let scripts ← rep pscript ns
+  let nc ← pnat
+  let calls ← rep (do
+    let r ← pready
+    let c ← pcall
+    pure (r, c)) nc
+  pure { scripts := scripts, calls := calls.map (·.2), readiness := calls.map (·.1) }
+
+def parseCase (ts : List String) : Option Case :=
+  match pcase ts with
+  | some (c, []) => some c
+  | _ => none
+
+/-! ### rendering -/
+
+def flagTok (b : Bool) : String := if b then "1" else "0"
+
+def showHdrs (h : Hdrs) : String :=
+  String.intercalate " " (toString h.length :: (canon h).map (fun e => s!"{hex e.1} {hex e.2.1} {flagTok e.2.2}"))
+
+def showExt (x : Ext) : String :=
+  String.intercalate " " (toString x.length :: toString x.length ::
+    (Ext.canon x).map (fun e => s!"{e.1} {hex e.2}"))
+
+def showBody (b : Body) : String :=
+  String.intercalate " " ([toString b.chunks.length] ++ b.chunks.map hex ++
+    [match b.trailers with
+     | none => "notr"
+     | some h => "tr " ++ showHdrs h])
+
+def showStatus (st : GStatus) : String :=
+  s!"{st.code} {hex st.message} {hex st.details} {showHdrs st.metadata}"
+
+def bodyEos (b : Body) : Bool := b.chunks.isEmpty && b.trailers.isNone
+def bodySize (b : Body) : Nat := (b.chunks.map List.length).foldl (· + ·) 0
+
+def showOutcome : Outcome Body Nat → Option String
+  | .panic => none
+  | .error n => some s!"outerr {n}"
+  | .response r =>
+    let eos := RespBody.isEndStream bodyEos r.body
+    let sz := RespBody.sizeHint bodySize r.body
+    some s!"out {r.status} {r.version} {showHdrs r.headers} {showExt r.ext} {flagTok eos} {sz} {sz} {showBody (RespBody.frames id r.body)}"
+
+def showSaw : Option (Request B) → String
+  | none => "noinner"
+  | some r => s!"inner {hex r.method} {r.version} {hex r.uri} {showHdrs r.headers} {showExt r.ext} {showBody r.body.1}"
+
+/-- the scripted wrapped service: counts invocations, answers with the script carried in the body -/
+def recorder : Inner Nat B Body Nat := fun n r => (n + 1, r.body.2)
+
+def callLine (l : (Hdrs × Ext) × Except GStatus (Hdrs × Ext)) (saw : Option (Request B))
+    (out : Outcome Body Nat) : Option String :=
+  let isaw := s!"isaw {showHdrs l.1.1} {showExt l.1.2}"
+  let dec := match l.2 with
+    | .ok (md, x) => s!"iret {showHdrs md} {showExt x}"
+    | .error st => s!"irej {showStatus st}"
+  match showOutcome out with
+  | none => none
+  | some o => some s!"{isaw} {dec} {showSaw saw} {o}"
+
+/-- sequences with back-pressure: a call is made only when `pollReady` says ready -/
+def runWithReadiness (scripts : List Script) :
+    (Nat × List ((Hdrs × Ext) × Except GStatus (Hdrs × Ext))) → Nat → List (Poll Nat × Request B) →
+    List (Option String) → List (Option String) × Nat
+  | _, n, [], acc => (acc, n)
+  | s, n, (rd, r) :: rest, acc =>
+    match pollReady (fun (_ : Nat) => rd) n with
+    | .pending => runWithReadiness scripts s n rest (acc ++ [some "notready pending"])
+    | .err e => runWithReadiness scripts s n rest (acc ++ [some s!"notready err {e}"])
+    | .ready =>
+      let c := call (logged (scripted scripts)) recorder s n r
+      let line := match c.icpt.2.getLast? with
+        | some l => callLine l c.innerSaw c.out
+        | none => none
+      runWithReadiness scripts c.icpt c.inner rest (acc ++ [line])
+
+def runModel (c : Case) : String :=
+  if c.readiness.any (fun r => r != Poll.ready) then
+    let (lines, n) := runWithReadiness c.scripts (0, []) 0 (c.readiness.zip c.calls) []
+    if lines.any Option.isNone then "panic"
+    else String.intercalate " " (lines.filterMap id ++ [s!"calls {n}"])
+  else
+  let (st, ncalls, results) := runCalls (logged (scripted c.scripts)) recorder (0, []) 0 c.calls
+  let log := st.2
+  let lines := (log.zip results).map (fun (l, res) =>
+    let isaw := s!"isaw {showHdrs l.1.1} {showExt l.1.2}"
+    let dec := match l.2 with
+      | .ok (md, x) => s!"iret {showHdrs md} {showExt x}"
+      | .error st => s!"irej {showStatus st}"
+    match showOutcome res.2 with
+    | none => none
+    | some o => some s!"{isaw} {dec} {showSaw res.1} {o}")
+  if lines.any Option.isNone then "panic"
+  else String.intercalate " " (lines.filterMap id ++ [s!"calls {ncalls}"])
+
+/-! ### parsing the observation, evaluating the oracle on it -/
+
+/-- observed `hdrs` (already lower-case): keep as given -/
+def ohdrs : P Hdrs := do
+  let n ← pnat
+  rep (do
+    let name ← pbytes
+    let v ← pbytes
+    let s ← pflag
+    pure (name, (v, s))) n
+
+/-- observed `total-len count (id value)*` -/
+def oext : P (Nat × Ext) := do
+  let total ← pnat
+  let n ← pnat
+  let xs ← rep (do
+    let id ← pnat
+    let v ← pbytes
+    pure (id, v)) n
+  pure (total, xs)
+
+def obody : P Body := do
+  let n ← pnat
+  let chunks ← rep pbytes n
+  let t ← next
+  if t == "notr" then pure { chunks := chunks, trailers := none }
+  else if t == "tr" then do
+    let h ← ohdrs
+    pure { chunks := chunks, trailers := some h }
+  else failure
+
+structure ObsOut where
+  resp : Response Body
+  extTotal : Nat
+  eos : Bool
+  lo : Nat
+  hi : Option Nat
+
+structure ObsCall where
+  isawH : Hdrs
+  isawX : Nat × Ext
+  decision : Spec.Interceptor.Decision
+  iretXTotal : Nat
+  saw : Option (Request Body × Nat)
+  out : Except Nat ObsOut
+
+def ocall : P ObsCall := do
+  let t ← next
+  if t != "isaw" then failure
+  let ih ← ohdrs
+  let ix ← oext
+  let t ← next
+  let (dec, tot) ← (if t == "iret" then do
+      let h ← ohdrs
+      let x ← oext
+      pure (Spec.Interceptor.Decision.accept h x.2, x.1)
+    else if t == "irej" then do
+      let code ← pnat
+      let msg ← pbytes
+      let det ← pbytes
+      let md ← ohdrs
+      pure (Spec.Interceptor.Decision.reject { code := code, message := msg, details := det, metadata := md }, 0)
+    else failure : P (Spec.Interceptor.Decision × Nat))
+  let t ← next
+  let saw ← (if t == "noinner" then pure none
+    else if t == "inner" then do
+      let m ← pbytes
+      let v ← pnat
+      let u ← pbytes
+      let h ← ohdrs
+      let x ← oext
+      let b ← obody
+      pure (some ({ method := m, version := v, uri := u, headers := h, ext := x.2, body := b }, x.1))
+    else failure : P (Option (Request Body × Nat)))
+  let t ← next
+  let out ← (if t == "outerr" then do
+      let n ← pnat
+      pure (.error n)
+    else if t == "out" then do
+      let status ← pnat
+      let version ← pnat
+      let h ← ohdrs
+      let x ← oext
+      let eos ← pflag
+      let lo ← pnat
+      let hiT ← next
+      let hi ← (match optNat? hiT with
+        | some v => pure v
+        | none => failure : P (Option Nat))
+      let b ← obody
+      pure (.ok { resp := { status := status, version := version, headers := h, ext := x.2, body := b },
+                  extTotal := x.1, eos := eos, lo := lo, hi := hi })
+    else failure : P (Except Nat ObsOut))
+  pure { isawH := ih, isawX := ix, decision := dec, iretXTotal := tot, saw := saw, out := out }
+
+def pobs (n : Nat) : P (List ObsCall × Nat) := do
+  let cs ← rep ocall n
+  let t ← next
+  if t != "calls" then failure
+  let k ← pnat
+  pure (cs, k)
+
+/-- bodies are compared with their trailers in canonical order (the observation lists them so) -/
+def canonBody (b : Body) : Body := { b with trailers := b.trailers.map canon }
+
+def frameCount (b : Body) : Nat := b.chunks.length + (if b.trailers.isSome then 1 else 0)
+
+/-- spec clauses for one call: `req` and `script` come from the case, everything else from the
+observation of the real code -/
+def callClauses (req : Request B) (script : Option Script) (o : ObsCall) : List (String × Bool) :=
+  let input : List (String × Bool) :=
+    [("interceptor-sees-request-metadata", Spec.Interceptor.hdrsEq o.isawH req.headers),
+     ("interceptor-sees-request-extensions",
+        Spec.Interceptor.extEq o.isawX.2 req.ext && o.isawX.1 == req.ext.length)]
+  match o.decision with
+  | .accept md ext =>
+    let req' : Request Body := { method := req.method, version := req.version, uri := req.uri,
+                                 headers := req.headers, ext := req.ext, body := canonBody req.body.1 }
+    let touched : Bytes → Bool := fun k => match script with
+      | none => false
+      | some sc => sc.ops.any (Op.mentions k)
+    let sawH : Hdrs := match o.saw with
+      | some (r, _) => r.headers
+      | none => []
+    let acc := Spec.Interceptor.acceptClauses req' md ext (o.saw.map (·.1))
+    let frame := [("untouched-headers-intact", Spec.Interceptor.untouchedOk touched req.headers sawH),
+                  ("no-foreign-extensions", match o.saw with
+                     | some (_, total) => total == o.iretXTotal
+                     | none => false)]
+    let resp : List (String × Bool) := match req.body.2, o.out with
+      | .error n, .error m => [("inner-error-passed-through", n == m)]
+      | .ok r, .ok oo =>
+        Spec.Interceptor.passClauses { r with body := canonBody r.body } oo.resp ++
+        [("response-no-foreign-extensions", oo.extTotal == r.ext.length),
+         ("response-body-hints", oo.eos == bodyEos r.body && oo.lo == bodySize r.body && oo.hi == some (bodySize r.body))]
+      | _, _ => [("response-kind-passed-through", false)]
+    input ++ acc ++ frame ++ resp
+  | .reject st =>
+    let view : List (String × Bool) := match o.out with
+      | .error _ => [("reject-yields-response", false)]
+      | .ok oo =>
+        Spec.Interceptor.rejectClauses st o.saw.isSome
+          { status := oo.resp.status, headers := oo.resp.headers, endStream := oo.eos, frames := frameCount oo.resp.body } ++
+        [("reject-size-hint-zero", oo.lo == 0 && oo.hi == some 0)]
+    input ++ view
+
+/-- one call's observation: either the service reported not ready (no call made) or a call -/
+def ocallOrNotReady : P (Except (Poll Nat) ObsCall) := do
+  let ts ← get
+  match ts with
+  | "notready" :: _ => do
+    let _ ← next
+    let t ← next
+    if t == "pending" then pure (.error .pending)
+    else if t == "err" then do
+      let n ← pnat
+      pure (.error (.err n))
+    else failure
+  | _ => do
+    let o ← ocall
+    pure (.ok o)
+
+def specVerdict (c : Case) (obs : List String) : String :=
+  if obs == ["panic"] then "fail:panic"
+  else
+    let p : P (List (Except (Poll Nat) ObsCall) × Nat) := do
+      let cs ← rep ocallOrNotReady c.calls.length
+      let t ← next
+      if t != "calls" then failure
+      let k ← pnat
+      pure (cs, k)
+    match p obs with
+    | some ((ocs, ncalls), []) =>
+      let n := c.scripts.length
+      -- `cnt` = number of calls the interceptor has seen (its script index)
+      let rec go : List ((Poll Nat × Request B) × Except (Poll Nat) ObsCall) → Nat → List (String × Bool)
+        | [], _ => []
+        | ((rd, req), o) :: rest, cnt =>
+          match o with
+          | .error p => ("readiness-is-wrapped-services", p == rd && rd != Poll.ready) :: go rest cnt
+          | .ok oc =>
+            ("readiness-is-wrapped-services", rd == Poll.ready) ::
+              (callClauses req (if n == 0 then none else c.scripts[cnt % n]?) oc ++ go rest (cnt + 1))
+      let accepts := (ocs.filter (fun o => match o with
+        | .ok oc => (match oc.decision with
+          | .accept _ _ => true
+          | .reject _ => false)
+        | .error _ => false)).length
+      verdict (go ((c.readiness.zip c.calls).zip ocs) 0 ++ [("inner-call-count", ncalls == accepts)])
+    | _ => "fail:unparseable-observation"
+
+/-! ### client kind: `Grpc<InterceptedService<Mock, F>>::server_streaming` -/
+
+/-- transport answer scripted per call: trailers-only headers and extensions -/
+abbrev CB := Bytes × (Hdrs × Ext)
+
+structure CCall where
+  originPrefix : Bytes
+  originPath : Bytes
+  originHasQuery : Bool
+  path : Bytes
+  userMd : Hdrs
+  ext : Ext
+  msg : Bytes
+  rhdrs : Hdrs
+  rext : Ext
+
+structure CCase where
+  scripts : List Script
+  calls : List CCall
+
+def pccall : P CCall := do
+  let pre ← pbytes
+  let op ← pbytes
+  let q ← pflag
+  let path ← pbytes
+  let h ← phdrs
+  let x ← pext
+  let m ← pbytes
+  let rh ← phdrs
+  let rx ← pext
+  pure { originPrefix := pre, originPath := op, originHasQuery := q, path := path, userMd := h, ext := x, msg := m, rhdrs := rh, rext := rx }
+
+def pccase : P CCase := do
+  let _kind ← next
+  let _via ← next
+  let ns ← pnat
+  let scripts ← rep pscript ns
+  let nc ← pnat
+  let calls ← rep pccall nc
+  pure { scripts := scripts, calls := calls }
+
+/-- gRPC Length-Prefixed-Message, uncompressed (what `EncodeBody` produces for one small message) -/
+def frame (m : Bytes) : Bytes := 0 :: (u32be m.length ++ m)
+
+def clientMock : Inner Nat CB Unit Nat := fun n r =>
+  (n + 1, .ok { status := 200, version := 2, headers := r.body.2.1, ext := r.body.2.2, body := () })
+
+def showClientResult : ClientResult → String
+  | .ok md x => s!"cok {showHdrs md} {showExt x}"
+  | .err st => s!"cerr {showStatus st}"
+  | .transport => "ctransport"
+  | .panic => "panic"
+  | .unmodelled => "unmodelled"
+
+def showSawC : Option (Request CB) → String
+  | none => "noinner"
+  | some r => s!"inner {hex r.method} {r.version} {hex r.uri} {showHdrs r.headers} {showExt r.ext} 1 {hex r.body.1} notr"
+
+/-- thread interceptor state (with its log) and transport state through the client calls -/
+def runClient (scripts : List Script) :
+    (Nat × List ((Hdrs × Ext) × Except GStatus (Hdrs × Ext))) → Nat → List CCall → List String → List String × Nat
+  | _, n, [], acc => (acc, n)
+  | s, n, k :: ks, acc =>
+    let t : TRequest CB := { metadata := k.userMd, message := (frame k.msg, (k.rhdrs, k.rext)), extensions := k.ext }
+    let (c, res) := clientCall (fun _ => true) (logged (scripted scripts)) clientMock s n k.originPrefix k.originPath k.originHasQuery k.path t
+    let line := match c.icpt.2.getLast? with
+      | none => "nolog"
+      | some l =>
+        let isaw := s!"isaw {showHdrs l.1.1} {showExt l.1.2}"
+        let dec := match l.2 with
+          | .ok (md, x) => s!"iret {showHdrs md} {showExt x}"
+          | .error st => s!"irej {showStatus st}"
+        s!"{isaw} {dec} {showSawC c.innerSaw} {showClientResult res}"
+    runClient scripts c.icpt c.inner ks (acc ++ [line])
+
+def runClientModel (c : CCase) : String :=
+  let (lines, n) := runClient c.scripts (0, []) 0 c.calls []
+  if lines.any (fun l => (l.splitOn " panic").length > 1) then "panic"
+  else String.intercalate " " (lines ++ [s!"calls {n}"])
+
+inductive ObsClient
+  | cok (md : Hdrs) (ext : Nat × Ext)
+  | cerr (st : GStatus)
+
+structure ObsCCall where
+  isawH : Hdrs
+  isawX : Nat × Ext
+  decision : Spec.Interceptor.Decision
+  iretXTotal : Nat
+  saw : Option (Request Body × Nat)
+  res : ObsClient
+
+def occall : P ObsCCall := do
+  let t ← next
+  if t != "isaw" then failure
+  let ih ← ohdrs
+  let ix ← oext
+  let t ← next
+  let (dec, tot) ← (if t == "iret" then do
+      let h ← ohdrs
+      let x ← oext
+      pure (Spec.Interceptor.Decision.accept h x.2, x.1)
+    else if t == "irej" then do
+      let code ← pnat
+      let msg ← pbytes
+      let det ← pbytes
+      let md ← ohdrs
+      pure (Spec.Interceptor.Decision.reject { code := code, message := msg, details := det, metadata := md }, 0)
+    else failure : P (Spec.Interceptor.Decision × Nat))
+  let t ← next
+  let saw ← (if t == "noinner" then pure none
+    else if t == "inner" then do
+      let m ← pbytes
+      let v ← pnat
+      let u ← pbytes
+      let h ← ohdrs
+      let x ← oext
+      let b ← obody
+      pure (some ({ method := m, version := v, uri := u, headers := h, ext := x.2, body := b }, x.1))
+    else failure : P (Option (Request Body × Nat)))
+  let t ← next
+  let res ← (if t == "cok" then do
+      let h ← ohdrs
+      let x ← oext
+      pure (ObsClient.cok h x)
+    else if t == "cerr" then do
+      let code ← pnat
+      let msg ← pbytes
+      let det ← pbytes
+      let md ← ohdrs
+      pure (ObsClient.cerr { code := code, message := msg, details := det, metadata := md })
+    else failure : P ObsClient)
+  pure { isawH := ih, isawX := ix, decision := dec, iretXTotal := tot, saw := saw, res := res }
+
+def pcobs (n : Nat) : P (List ObsCCall × Nat) := do
+  let cs ← rep occall n
+  let t ← next
+  if t != "calls" then failure
+  let k ← pnat
+  pure (cs, k)
+
+def clientClauses (k : CCall) (script : Option Script) (o : ObsCCall) : List (String × Bool) :=
+  let te := str "te"
+  let ct := str "content-type"
+  let input : List (String × Bool) :=
+    [("client-interceptor-sees-te-trailers", getAll te o.isawH == [(str "trailers", false)]),
+     ("client-interceptor-sees-grpc-content-type", getAll ct o.isawH == [(str "application/grpc", false)]),
+     ("client-interceptor-sees-user-metadata", (keys o.isawH ++ keys k.userMd).all (fun n =>
+        Spec.Interceptor.reserved n || getAll n o.isawH == getAll n k.userMd)),
+     ("client-interceptor-sees-extensions", Spec.Interceptor.extEq o.isawX.2 k.ext && o.isawX.1 == k.ext.length)]
+  match o.decision with
+  | .accept md ext =>
+    let touched : Bytes → Bool := fun n => match script with
+      | none => false
+      | some sc => sc.ops.any (Op.mentions n)
+    let acc : List (String × Bool) := match o.saw with
+      | none => [("inner-invoked", false)]
+      | some (r, total) =>
+        [("method-post", r.method == str "POST"), ("version-h2", r.version == 2),
+         ("uri-has-origin-and-path", k.originPrefix.isPrefixOf r.uri && k.path.isSuffixOf r.uri),
+         ("body-is-length-prefixed-message", r.body == { chunks := [frame k.msg], trailers := none }),
+         ("metadata-is-interceptors", Spec.Interceptor.hdrsEq r.headers md),
+         ("extensions-are-interceptors", Spec.Interceptor.extEq r.ext ext && total == o.iretXTotal),
+         ("untouched-headers-intact", Spec.Interceptor.untouchedOk touched o.isawH r.headers)]
+    -- the transport's trailers-only answer reaches the caller
+    let codeTok : Bytes := match (getAll (str "grpc-status") k.rhdrs).head? with
+      | some v => v.1
+      | none => []
+    let expectCode : Nat :=
+      if !codeTok.isEmpty && codeTok.all Ascii.isDigit && codeTok.length ≤ 2 && digitsVal codeTok ≤ 16
+         && (codeTok.length == 1 || codeTok.head? != some 48) then digitsVal codeTok else 2
+    let resp : List (String × Bool) := match o.res with
+      | .cok h x => [("transport-ok-passed-through", expectCode == 0 && Spec.Interceptor.hdrsEq h k.rhdrs
+                        && Spec.Interceptor.extEq x.2 k.rext && x.1 == k.rext.length)]
+      | .cerr st => [("transport-status-passed-through", expectCode != 0 && st.code == expectCode &&
+                        (keys st.metadata ++ keys k.rhdrs).all (fun n =>
+                          Spec.Interceptor.reserved n || getAll n st.metadata == getAll n k.rhdrs))]
+    input ++ acc ++ resp
+  | .reject st =>
+    let res : List (String × Bool) := match o.res with
+      | .cerr st' =>
+        [("caller-gets-error-status", st.code != 0), ("caller-status-code", st'.code == st.code),
+         ("caller-status-message", st'.message == st.message), ("caller-status-details", st'.details == st.details),
+         ("caller-status-metadata", (keys st'.metadata ++ keys st.metadata).all (fun n =>
+            Spec.Interceptor.reserved n || getAll n st'.metadata == getAll n st.metadata))]
+      | .cok h _ =>
+        [("caller-gets-ok-only-for-ok-status", st.code == 0),
+         ("caller-status-metadata", (keys h ++ keys st.metadata).all (fun n =>
+            Spec.Interceptor.reserved n || getAll n h == getAll n st.metadata))]
+    input ++ [("inner-not-invoked", o.saw.isNone)] ++ res
+
+def clientVerdict (c : CCase) (obs : List String) : String :=
+  if obs == ["panic"] then "fail:panic"
+  else match pcobs c.calls.length obs with
+  | some ((ocs, ncalls), []) =>
+    let n := c.scripts.length
+    let perCall := (c.calls.zip ocs).zipIdx.map (fun ((k, o), i) =>
+      clientClauses k (if n == 0 then none else c.scripts[i % n]?) o)
+    let accepts := (ocs.filter (fun o => match o.decision with
+      | .accept _ _ => true
+      | .reject _ => false)).length
+    verdict (perCall.flatten ++ [("inner-call-count", ncalls == accepts)])
+  | _ => "fail:unparseable-observation"
+
+/-! ### routed kind: `Routes::new(InterceptedService<Named, F>).add_service(Other)` -/
+
+def routedName : Bytes := str "pkg.Svc"
+def otherName : Bytes := str "other.Svc"
+
+def pathOfUri (u : Bytes) : Bytes := u.takeWhile (fun c => c != 63)
+
+def showFallback : Option (Response Unit) → Option String
+  | none => none
+  | some r => some s!"out {r.status} {r.version} {showHdrs r.headers} {showExt r.ext} 1 0 0 0 notr"
+
+/-- thread the states through `routesCall`; per call one line -/
+def runRouted (scripts : List Script) :
+    (Nat × List ((Hdrs × Ext) × Except GStatus (Hdrs × Ext))) → Nat → List (Request B) → List (Option String) → List (Option String) × Nat
+  | _, n, [], acc => (acc, n)
+  | s, n, r :: rs, acc =>
+    match routesCall routedName otherName (logged (scripted scripts)) recorder s n (pathOfUri r.uri) r with
+    | .service c =>
+      let line := match c.icpt.2.getLast?, showOutcome c.out with
+        | some l, some o =>
+          let isaw := s!"isaw {showHdrs l.1.1} {showExt l.1.2}"
+          let dec := match l.2 with
+            | .ok (md, x) => s!"iret {showHdrs md} {showExt x}"
+            | .error st => s!"irej {showStatus st}"
+          some s!"{isaw} {dec} {showSaw c.innerSaw} {o}"
+        | _, _ => none
+      runRouted scripts c.icpt c.inner rs (acc ++ [line])
+    | .other => runRouted scripts s n rs (acc ++ [some "noicpt noinner other out 418 11 0 0 0 1 0 0 0 notr"])
+    | .fallback fr =>
+      runRouted scripts s n rs (acc ++ [(showFallback fr).map (fun o => s!"noicpt noinner {o}")])
+
+def runRoutedModel (c : Case) : String :=
+  let (lines, n) := runRouted c.scripts (0, []) 0 c.calls []
+  if lines.any Option.isNone then "panic"
+  else String.intercalate " " (lines.filterMap id ++ [s!"calls {n}"])
+
+structure ObsRCall where
+  icpt : Option (Hdrs × (Nat × Ext) × Spec.Interceptor.Decision × Nat)
+  saw : Option (Request Body × Nat)
+  other : Bool
+  out : Except Nat ObsOut
+
+def oout : P (Except Nat ObsOut) := do
+  let t ← next
+  if t == "outerr" then do
+    let n ← pnat
+    pure (.error n)
+  else if t == "out" then do
+    let status ← pnat
+    let version ← pnat
+    let h ← ohdrs
+    let x ← oext
+    let eos ← pflag
+    let lo ← pnat
+    let hiT ← next
+    let hi ← (match optNat? hiT with
+      | some v => pure v
+      | none => failure : P (Option Nat))
+    let b ← obody
+    pure (.ok { resp := { status := status, version := version, headers := h, ext := x.2, body := b },
+                extTotal := x.1, eos := eos, lo := lo, hi := hi })
+  else failure
+
+def orcall : P ObsRCall := do
+  let t ← next
+  let icpt ← (if t == "noicpt" then pure none
+    else if t == "isaw" then do
+      let ih ← ohdrs
+      let ix ← oext
+      let t ← next
+      if t == "iret" then do
+        let h ← ohdrs
+        let x ← oext
+        pure (some (ih, ix, Spec.Interceptor.Decision.accept h x.2, x.1))
+      else if t == "irej" then do
+        let code ← pnat
+        let msg ← pbytes
+        let det ← pbytes
+        let md ← ohdrs
+        pure (some (ih, ix, Spec.Interceptor.Decision.reject { code := code, message := msg, details := det, metadata := md }, 0))
+      else failure
+    else failure : P (Option (Hdrs × (Nat × Ext) × Spec.Interceptor.Decision × Nat)))
+  let t ← next
+  let saw ← (if t == "noinner" then pure none
+    else if t == "inner" then do
+      let m ← pbytes
+      let v ← pnat
+      let u ← pbytes
+      let h ← ohdrs
+      let x ← oext
+      let b ← obody
+      pure (some ({ method := m, version := v, uri := u, headers := h, ext := x.2, body := b }, x.1))
+    else failure : P (Option (Request Body × Nat)))
+  -- optional `other`
+  let ts ← get
+  let other ← (match ts with
+    | "other" :: _ => do let _ ← next; pure true
+    | _ => pure false : P Bool)
+  let out ← oout
+  pure { icpt := icpt, saw := saw, other := other, out := out }
+
+def routedClauses (req : Request B) (script : Option Script) (o : ObsRCall) : List (String × Bool) :=
+  let path := pathOfUri req.uri
+  if Spec.Interceptor.pathNamesService routedName path then
+    match o.icpt with
+    | none => [("routed-call-reaches-interceptor", false)]
+    | some (ih, ix, dec, tot) =>
+      ("routed-call-not-sent-elsewhere", !o.other) ::
+      callClauses req script { isawH := ih, isawX := ix, decision := dec, iretXTotal := tot, saw := o.saw, out := o.out }
+  else
+    let base : List (String × Bool) :=
+      [("unrouted-interceptor-not-invoked", o.icpt.isNone), ("unrouted-inner-not-invoked", o.saw.isNone)]
+    if Spec.Interceptor.pathNamesService otherName path then base ++ [("other-service-invoked", o.other)]
+    else
+      let un : GStatus := { code := 12, message := [], details := [], metadata := [] }
+      base ++ [("unrouted-not-sent-elsewhere", !o.other)] ++ (match o.out with
+        | .error _ => [("unrouted-yields-response", false)]
+        | .ok oo =>
+          Spec.Interceptor.rejectClauses un false
+            { status := oo.resp.status,
+              headers := oo.resp.headers.filter (fun e => !Spec.Interceptor.httpFraming e.1),
+              endStream := oo.eos, frames := frameCount oo.resp.body })
+
+def routedVerdict (c : Case) (obs : List String) : String :=
+  if obs == ["panic"] then "fail:panic"
+  else
+    let p : P (List ObsRCall × Nat) := do
+      let cs ← rep orcall c.calls.length
+      let t ← next
+      if t != "calls" then failure
+      let k ← pnat
+      pure (cs, k)
+    match p obs with
+    | some ((ocs, ncalls), []) =>
+      let n := c.scripts.length
+      -- the interceptor's call counter advances only on routed calls
+      let rec go : List (Request B × ObsRCall) → Nat → List (String × Bool)
+        | [], _ => []
+        | (req, o) :: rest, cnt =>
+          let routedHere := Spec.Interceptor.pathNamesService routedName (pathOfUri req.uri)
+          routedClauses req (if n == 0 then none else c.scripts[cnt % n]?) o ++
+            go rest (if routedHere then cnt + 1 else cnt)
+      let accepts := (ocs.filter (fun o => match o.icpt with
+        | some (_, _, .accept _ _, _) => true
+        | _ => false)).length
+      verdict (go (c.calls.zip ocs) 0 ++ [("inner-call-count", ncalls == accepts)])
+    | _ => "fail:unparseable-observation"
+
+def handle (case obs : List String) : String × String :=
+  match case with
+  | "client" :: _ =>
+    (match pccase case with
+     | some (c, []) => (runClientModel c, clientVerdict c obs)
+     | _ => bad)
+  | "routed" :: _ =>
+    (match parseCase case with
+     | none => bad
+     | some c => (runRoutedModel c, routedVerdict c obs))
+  | _ =>
+    match parseCase case with
+    | none => bad
+    | some c => (runModel c, specVerdict c obs)
+
 end DriverC12
